@@ -20,7 +20,9 @@ THEOREMS = [f"NumbersModel.Props.C14.{t}" for t in (
     "week_of_year_step", "nth_weekday_directive", "era_directive", "scanner_concat",
     "scanner_literal_passthrough", "scanner_quoted_passthrough", "expand_quotes_is_fieldless_scanner",
     "expand_quotes_concat", "duration_text_numbers", "duration_units_shown", "duration_reads_back",
-    "auto_units_valid", "auto_units_exact", "duration_reads_back_auto", "duration_fields_normalised")] + \
+    "auto_units_valid", "auto_units_exact", "duration_reads_back_auto", "duration_fields_normalised",
+    # the format-selection glue on the date / duration path (Model/FormatDispatch.lean)
+    "set_then_display_datetime", "display_reads_back_datetime", "display_reads_back_duration", "date_dispatch")] + \
     [f"NumbersModel.Props.C14.Src.{t}" for t in (
         # the same clauses over the definitions py2lean regenerates from constants.py / cell.py on every run
         "src_week_of_month_directive", "src_nth_weekday_directive", "src_day_of_year_directives", "src_scanner_concat",
@@ -52,7 +54,15 @@ MANIFEST = {
             "run (harness/py2lean.py -> Gen/TrDateFmt.lean, Gen/TrDuration.lean), proved equal to the model for all arguments "
             "(Lemmas/TrDateFmt.lean, Lemmas/TrDuration.lean: the index-based while loops against the model's list recursion) "
             "and the clauses are restated over the translated definitions (Props.C14.Src.src_*); the translated definitions "
-            "are run against the real functions (trdriver).",
+            "are run against the real functions (trdriver). The format-selection glue of the date / duration path is modelled "
+            "too (Model/FormatDispatch.lean: Formatting.__post_init__ with the directive validation and the default format, "
+            "set_cell_formatting('datetime'), format_archive, Cell.formatted_value -> _date_format / _duration_format incl. custom "
+            "uids): set_then_display_datetime, display_reads_back_datetime (the text formatted_value returns is "
+            "_decode_date_format of the format passed - or the documented default - on the cell's date-time, hence the "
+            "concatenation of its parts), display_reads_back_duration (a cell with a duration record displays _duration_format "
+            "under that record; read back it is the duration truncated to the smallest unit), date_dispatch; compared through "
+            "the real API for every format name x cell kind, every date format of a pool (valid / invalid), after save + reopen, "
+            "and on every date / duration cell of every fixture document with the format record read from the data lists.",
     "note": "`%A/%a/%B/%b/%p` locale names are those of the C locale in the model: compared on every run, not proved. "
             "CPython datetime/strftime is replaced by own civil arithmetic (agreement checked on every day of the range in "
             "the thorough tier). Durations are modelled over integer milliseconds; float exactness at that resolution is "
@@ -521,6 +531,11 @@ def run(ctx: Ctx):
     # --- 11. the reference workbooks of the suite (real files -> real model objects) ------------------------------------------
     _reference_workbooks(ctx)
 
+    # --- 12. the format-selection glue: set_cell_formatting('datetime') / Formatting / formatted_value dispatch, date and duration
+    #         cells of every fixture document ----------------------------------------------------------------------------------
+    from checks import fmtglue
+    fmtglue.run_c14(ctx)
+
 
 def translated_source_stream(ctx: Ctx, dur_vals: list[int]):
     """_day_of_year / _week_of_month / _days_occurred_in_month / _decode_date_format / _unit_format / _auto_units called
@@ -762,6 +777,9 @@ def reformat_sequences(ctx: Ctx, names):
 def replay(data):
     warnings.simplefilter("ignore")
     i = data.get("input", {})
+    if i.get("glue"):
+        from checks import fmtglue
+        return fmtglue.replay(i)
     res = {}
     if "format_sequence" in i:
         from numbers_parser import Document
